@@ -105,6 +105,16 @@ const randombytes_implementation *scripted_impl() {
 }
 #endif
 
+// Stale stack contents are part of the environment: whatever earlier, unrelated calls left where the library's frames
+// are about to live.  The simulator decides it: called right before a library call (from the frame that makes the
+// call), this fills the stack region below the caller with one word, so that a local the library forgets to initialise
+// holds a value of the simulator's choosing (zero, a recognisable non-pointer, or the address of a tripwire buffer).
+__attribute__((noinline)) static inline void dirty_stack(uint64_t word, size_t bytes = 48 * 1024) {
+    volatile uint64_t *buf = (volatile uint64_t *) __builtin_alloca(bytes);
+    for (size_t i = 0; i < bytes / 8; i++) buf[i] = word;
+    __asm__ volatile("" : : "r"(buf) : "memory");
+}
+
 // ASan: classify sanitizer hits by exit code, no leak checking (LSan would flood under fork)
 #ifdef SIM_COMMON_IMPL
 extern "C" __attribute__((used, visibility("default"))) const char *__asan_default_options() {
